@@ -32,3 +32,65 @@ CLAIMS = {
             "patterns, histories that grow/shrink/edit the matched set, bodies logging what they received; replayed in the model.",
             TB + "Known finding F11 (a shrinking match set is not detected). Path.glob, pluggy, networkx trusted.", TECH),
 }
+
+CLAIMS.update({
+    "C02": ("Lean 4 theorems over the engine model (state = content id): C02_equiv/_equiv_build (SKIP_UNCHANGED only if every neighbour matched its row at "
+            "setup), the inductive database invariant C02_inv_init/_inv_edit/_inv_protocol/_inv_build/_history_coherent, C02_inv (in every world "
+            "reachable by edits and builds, matching rows imply the products are what the body computes from the current inputs), C02_partial / "
+            "C02_success / C02_exit0 (products of SUCCESS/unchanged tasks equal the from-scratch contents), C02_vs_fresh_build; the statement without a "
+            "static project is refuted from the F11b witness. Tie: histories of builds (plain/forced/dry/-k/-m/max_failures) and edits on real "
+            "projects, compared with F evaluated from scratch and replayed in the model.",
+            TB + "Known finding F11b (a dependency dropped from a task without a module-text change). mtime/memo effects (F4) are decided in C12, "
+                 "directory patterns (F11) in C18; persist-marked tasks are outside the claim; add/remove/rewire edits are covered by the campaign only.", TECH),
+    "C03": ("Lean 4 theorems C03_step, C03_history (a task whose neighbours have the recorded contents is not executed, whatever unrelated edits, "
+            "touches or upstream re-runs happened), C03_rows_cover_neighbours, C03_repeat / C03_repeat_exit0 (after an all-good build every later "
+            "non-forced build executes nothing and changes nothing) over the engine model for all configurations and schedules. Tie: histories with "
+            "touch-only edits, identical rewrites, edit-then-revert, selections, fresh processes; ground truth kept by the harness; replayed in the model.",
+            TB + "Forced builds, generators and in-memory products are outside the claim (by the property).", TECH),
+    "C05": ("Lean 4 theorems over a step-level refinement of the engine (one step per product write and per committed row set): C05_applySteps_all "
+            "(the step model refines Engine.build), C05_rows_safe (at every kill point, matching rows imply fresh products), C05_rc_init/_rc_build, "
+            "C05_no_redo, C05_unchanged_rows, C05_converge_step/_partial/C05_converge (kill anywhere, then a good recovery build ⇒ from-scratch "
+            "fixpoint, later builds quiet), C05_memo_garbage_ok. Tie: real os._exit kills at every hook boundary / commit / mid-body through an "
+            "out-of-tree observer plugin, torn hash-cache files, recovery builds replayed in the model.",
+            TB + "SQLite commit atomicity/durability and os._exit ≈ SIGKILL assumed; power-loss reordering not modelled; persist marks excluded.", TECH),
+    "C07": ("Lean 4 theorems over the pytree / task-argument model: C07_unflatten_flatten, C07_leaves_map, C07_paths_at, C07_mapWithPath, "
+            "C07_prefix_iff_flatten, C07_prefix_flatten, C07_prefix_reject, C07_return_stores, C07_return_nowrong, C07_kwargs_correct, C07_dep_full, "
+            "C07_products_full, C07_dependencies_full (every parameter receives the declared tree with leaves loaded; return leaves land at their "
+            "positions; a non-fitting return stores nothing). Tie: optree on all small trees, generated task signatures mixing all declaration "
+            "forms built end-to-end, bodies logging what they received; translator facts from behavioural probes.",
+            TB + "optree, pickling, Python call semantics trusted; F70/F71/F72 were repaired by fix: commits and their witnesses are corpus cases.", TECH),
+    "C08": ("Lean 4 theorems C08_one_report/_at_most_one/_exactly_one, C08_success, C08_not_run, C08_fail_iff, C08_no_crash over the engine and "
+            "C08_top_is_build, C08_returns, C08_returns_full, C08_exit_config/_collect/_dag/_execute/_import, C08_exit_zero_iff, C08_escapes_scope over "
+            "BuildTop (the try/except ladder of build() taken from the translator). Tie: fault injection in every phase through pytask.build "
+            "(syntax/import errors, sys.exit at import, bad markers, bad config, bad expressions, cycles, duplicate products, body/load/save/state/"
+            "hash faults, SystemExit) replayed in the model.",
+            TB + "KeyboardInterrupt escapes by design; configuration exception classes are not observable from outside.", TECH),
+    "C09": ("Lean 4 theorems: graph theory of the model (mem_ancRaw_iff, hasCycle_true_iff, hasCycle_false_iff_hasRank), createDag_error_iff, "
+            "C09_reject_code, C09_reject_partial, C09_exit4_iff, C09_accept, C09_accept_sorter, C09_no_late_cycle; the full rejection statement is "
+            "refuted from the F1 after-cycle witness. Tie: real create_dag on all small bipartite graphs × after relations (thorough: all 245k), "
+            "random graphs, and pytask.build on generated projects (spellings, PythonNodes, repaired second build).",
+            TB + "networkx trusted; known finding F1 (an after-declaration towards a product-less task creates no edge, so a cycle closed only "
+                 "through it is not rejected).", TECH),
+    "C11": ("Lean 4 theorems over the clean model (PurePosixPath.match/fnmatch in full detail, node tree, known paths incl. git join logic, modes): "
+            "C11_listed_inside, C11_listed_file, C11_listed_dir, C11_files_only, C11_protected_not_covered, C11_below_excluded, C11_clean_dry, "
+            "C11_clean_force, C11_clean_interactive, C11_uncovered_survives, C11_known_covers_full, C11_never_offered_full, C11_pytask_dir_safe "
+            "(by induction on the file tree). Tie: real `pytask clean` via CliRunner on generated trees × git states × excludes × flags, exhaustive "
+            "node-level trees, pattern matching on all small patterns.",
+            TB + "git's answers are inputs of the model; symlinks and non-POSIX paths out of scope; F9 and F16 were repaired by fix: commits.", TECH),
+    "C13": ("Lean 4 theorems over the collection model: C13_walk_once, C13_walk_repeat, C13_short_names_inj/_total, C13_ids_sound, C13_ids_total_full, "
+            "C13_decorator_exact, C13_dup_id_fails, C13_id_clash_fails, C13_dup_signature_fails, C13_hooks_disjoint_*, C13_prefix_exact/_once, "
+            "C13_cross_hook_full, C13_report_path, C13_module_inj_partial, C13_import_own_partial, C13_exit/_leftovers_fail/_file_fail_exit; module-name "
+            "injectivity at full strength is refuted (F12). Tie: generated layouts × declaration programs collected by the real code, bodies tagged.",
+            TB + "CPython import machinery trusted; known finding F12 (two files mapped to one module name); F8a/F8b repaired by fix: commits.", TECH),
+    "C16": ("Lean 4 theorems over the expression model: C16_parse_sound, C16_parse_complete (against a left-recursive reference CFG), "
+            "C16_grammar_unambiguous, C16_parse_total, C16_compile_ok_iff, C16_precedence, C16_eval_bool, C16_empty_false, C16_lex_roundtrip, "
+            "C16_blanks_irrelevant, C16_lex_keyword_whole, C16_alphabet, C16_lex_reject, C16_kw_semantics, C16_mark_semantics, C16_select_*. Tie: "
+            "every string of ≤ 6 (thorough 7) symbols under all truth assignments, random unicode strings, generated tasks, real Expression / "
+            "matchers / select_by_* vs the model and an independent oracle; lexer facts from the translator.",
+            TB + "`\\w` and str.lower tables are parameters supplied per string by the harness.", TECH),
+    "C20": ("Lean 4 theorems over the data-catalog model (validator class and re function from the translator, sessions with node persistence): "
+            "C20_name_valid_verdict/_partial, C20_entry_stable, C20_entry_iso, C20_entry_iso_verdict, C20_store_roundtrip, C20_catalog_roundtrip, "
+            "C20_catalog_roundtrip_verdict (the full statements hold iff the validator uses fullmatch — which it does since fix 7a8cb52). Tie: all "
+            "names of ≤ 3 symbols plus random unicode/long/separator/case names in several sessions, save/load traces, end-to-end builds.",
+            TB + "sha256 injectivity is a hypothesis; pickle fidelity trusted; case-sensitive file system.", TECH),
+})
